@@ -15,7 +15,7 @@ fn c(comp: Comp) -> Item {
 pub fn l1_components(cfg: Config) -> Vec<Comp> {
     let mut out = Vec::new();
     let names: &[&'static str] = &["salt", "olive oil", "ñu", "tipo 00 flour", "5peppers"];
-    let mut vals = vec![Val::Int(3), Val::Dec("1.5"), Val::Dec("0.25"), Val::Frac(1, 2), Val::Mixed(1, 1, 2), Val::Text("a few"), Val::Text("2 heaped")];
+    let mut vals = vec![Val::Int(3), Val::Dec("1.5"), Val::Dec("0.25"), Val::Dec("0.05"), Val::Frac(1, 2), Val::Mixed(1, 1, 2), Val::Text("a few"), Val::Text("2 heaped")];
     if cfg.extended {
         vals.push(Val::Range(Box::new(Val::Int(2)), Box::new(Val::Int(3))));
         vals.push(Val::Range(Box::new(Val::Dec("1.5")), Box::new(Val::Mixed(2, 1, 2))));
@@ -137,7 +137,7 @@ pub fn l2_alphabet(cfg: Config) -> Vec<Comp> {
     v
 }
 
-/// shapes: 0 = one step "c1 x c2", 1 = two steps, 2 = one step with three components, 3 = three steps
+/// shapes: 0 = one step "c1 then c2", 1 = one step per component, 2 = one step with only a blank between the components
 pub fn l2_recipe(alpha: &[Comp], idx: &[usize], shape: usize) -> Recipe {
     let comps: Vec<Comp> = idx.iter().map(|&i| alpha[i].clone()).collect();
     let blocks = match shape {
@@ -145,7 +145,7 @@ pub fn l2_recipe(alpha: &[Comp], idx: &[usize], shape: usize) -> Recipe {
             let mut items = Vec::new();
             for (k, cc) in comps.iter().enumerate() {
                 if k > 0 {
-                    items.push(t(" then "));
+                    items.push(t(if shape == 2 { " " } else { " then " }));
                 }
                 items.push(c(cc.clone()));
             }
@@ -180,6 +180,8 @@ pub fn l3_alphabet(cfg: Config) -> Vec<Block> {
             Block::Step(vec![t("Use "), c(Comp::new(Kind::Igr, "prev").mods("&?").inter(true, true, 1))]),
             Block::Step(vec![t("Use "), c(Comp::new(Kind::Igr, "a")), t(" and "), c(Comp::new(Kind::Igr, "a").qty(Val::Int(3), Some("g"))), t(" in "), c(Comp::new(Kind::Cw, "p"))]),
             Block::Step(vec![t("Use "), c(Comp::new(Kind::Igr, "a").mods("+").qty(Val::Int(7), Some("g")))]),
+            Block::Step(vec![t("Take "), c(Comp::new(Kind::Cw, "p").mods("+").qty(Val::Int(2), None))]),
+            Block::Step(vec![t("Put it in "), c(Comp::new(Kind::Cw, "p").qty(Val::Int(1), None))]),
             Block::Step(vec![t("heat to "), Item::InlineQ("180", "C"), t(" then wait "), Item::InlineQ("5", "min")]),
             Block::Switch("mode", "components"),
             Block::Switch("mode", "steps"),
